@@ -1086,9 +1086,9 @@ fn c15_case() -> impl Strategy<Value = Case> {
         0usize..3,
         prop_oneof![3 => Just(None), 1 => (0u32..120, 0usize..4).prop_map(Some)],
         schedule(300),
-        (1usize..=4, any::<bool>()),
+        (1usize..=4, any::<bool>(), cap(), cap()),
     )
-        .prop_map(|(mut o0, mut o1, binds, p0, p1, streams, ndg, end, schedule, (bbuf, small_ids))| {
+        .prop_map(|(mut o0, mut o1, binds, p0, p1, streams, ndg, end, schedule, (bbuf, small_ids, c0, c1))| {
             let binds: Vec<BindSpec> = binds.into_iter().map(|(side, dgram, mut host, port, delay)| {
                 if host.len() % 4 != 0 {
                     host.truncate(6);
@@ -1122,7 +1122,7 @@ fn c15_case() -> impl Strategy<Value = Case> {
             } else {
                 [vec![], vec![]]
             };
-            Case { opts: [o0, o1], binds, bind_policy: [p0, p1], streams, dgrams, dg_readers: [DgReader::Eager, DgReader::Eager], events, schedule, rng, ..Case::default() }
+            Case { opts: [o0, o1], cap: [c0, c1], binds, bind_policy: [p0, p1], streams, dgrams, dg_readers: [DgReader::Eager, DgReader::Eager], events, schedule, rng, ..Case::default() }
         })
 }
 
@@ -1320,6 +1320,69 @@ pub fn c15(ctx: &Ctx, rep: &mut Report) {
     rep.assumptions.push("the responder drops a BindRequest only as the 'drop' answer; after reply() the request object is kept until the responder ends (BindRequest::drop always sends a Reset, documented behaviour)".into());
     let t = ctx.tier;
     ctx.prop(rep, "binds", t.pick(40_000, 1_200_000), 300, || with_keepalive(c15_case()), run_c15);
+    // a harness-driven peer: other well-formed frames on the id of a pending bind request (a late credit frame of an earlier stream
+    // with that id, a stray Push or Connect) arrive before the peer's actual answer; only the answer - Finish = accepted, Reset =
+    // refused - decides the request, and other requests are untouched
+    const STRAY: [&str; 6] = ["none", "ack1", "ack0", "connect", "ack1-ack1", "datagram"];
+    ctx.enumerate(
+        rep,
+        "stray-frames-before-the-answer",
+        (STRAY.len() * 2 * 2) as u64,
+        10,
+        |i| {
+            let stray = (i % 6) as usize;
+            let accept = (i / 6) % 2 == 0;
+            let dgram = i / 12 == 1;
+            let id = 7u32;
+            let mut events = vec![];
+            let inject = |events: &mut Vec<RawEvent>, msg: RawMsg| events.push(RawEvent { when: Trigger::Quiescent, what: What::Inject { from: 1, msg } });
+            match STRAY[stray] {
+                "ack1" => inject(&mut events, RawMsg::Ack { id, n: 1 }),
+                "ack0" => inject(&mut events, RawMsg::Ack { id, n: 0 }),
+                "connect" => inject(&mut events, RawMsg::Connect { id, rwnd: 3, port: 1, host: b"x".to_vec() }),
+                "ack1-ack1" => {
+                    inject(&mut events, RawMsg::Ack { id, n: 1 });
+                    inject(&mut events, RawMsg::Ack { id, n: 1 });
+                }
+                "datagram" => inject(&mut events, RawMsg::Datagram { id, port: 5, host: b"d".to_vec(), data: vec![1] }),
+                _ => {}
+            }
+            inject(&mut events, if accept { RawMsg::Finish { id } } else { RawMsg::Reset { id } });
+            Case {
+                opts: [OptsSpec::default(), OptsSpec::default()],
+                rng: [vec![id], vec![]],
+                binds: vec![BindSpec { side: 0, dgram, host: b"h".to_vec(), port: 1, delay: 0 }],
+                dg_readers: [DgReader::Eager, DgReader::None],
+                raw: Some(RawPolicy { reject_first: 0, ack_connects: None, ack_every: Some(1), answer_close: true, no_ack_streams: vec![] }),
+                events,
+                ..Case::default()
+            }
+        },
+        |case| {
+            let run = run_case(case);
+            if !run.quiescent {
+                return inconclusive(&run);
+            }
+            let a = Analysis::new(case, &run);
+            let id = 7u32;
+            if !run.events.iter().any(|e| matches!(&e.ev, Ev::Sent { side: 0, msg: WMsg::Frame(RFrame::Bind { id: i, .. }), .. } if *i == id)) {
+                return Outcome::inconclusive("harness: the bind request did not use the scripted id");
+            }
+            let accept = case.events.iter().any(|e| matches!(&e.what, What::Inject { msg: RawMsg::Finish { .. }, .. }));
+            let results: Vec<Result<bool, String>> = run.app_events().filter_map(|(_, e)| if let AppEv::BindResolved { result, .. } = e { Some(result.clone()) } else { None }).collect();
+            let stray: Vec<String> = case.events.iter().filter_map(|e| if let What::Inject { msg, .. } = &e.what { Some(format!("{msg:?}")) } else { None }).collect();
+            match results.as_slice() {
+                [] => viol!(a, "c15-never-resolved", "frames from the peer: {stray:?}: the bind request never resolved"),
+                [Ok(b)] if *b == accept => {}
+                [r] => viol!(a, "c15-decided-by-a-stray-frame", "frames from the peer on the flow of the pending bind request: {stray:?}: the request resolved {r:?}, the peer's answer was {}", if accept { "Finish (accepted)" } else { "Reset (refused)" }),
+                more => viol!(a, "c15-resolved-twice", "resolved {} times: {more:?}", more.len()),
+            }
+            if run.events.iter().any(|e| matches!(&e.ev, Ev::TaskExit { side: 0, .. })) {
+                viol!(a, "c15-connection-ended", "the connection task ended");
+            }
+            Outcome::pass(stray.len() > 1, vec!["stray-frames-before-the-answer"])
+        },
+    );
     ctx.enumerate(
         rep,
         "reuse-probe",
